@@ -19,147 +19,6 @@ theorem C17_search_exact (n : Nat) (ops : List Op) :
   have := runOps_ginv ops (init Defects.none n) (ginv_init _ _) (Or.inl ⟨rfl, rfl⟩)
   exact search_eq_matching (this.1 s hs) e he t
 
-/-! with `Defects.none` the flag the engine uses is the one the model version in force declares -/
-
-theorem writeUpdate_flags (i : Bool) (o nw : Row) (p : Option (List Word)) (s : Site) :
-    (writeUpdate i o nw p s).indexOn = s.indexOn ∧ (writeUpdate i o nw p s).declared = s.declared := ⟨rfl, rfl⟩
-
-theorem writeInsert_flags (i : Bool) (nw : Row) (s : Site) :
-    (writeInsert i nw s).indexOn = s.indexOn ∧ (writeInsert i nw s).declared = s.declared := ⟨rfl, rfl⟩
-
-theorem ingestRow_flags (d : Defects) (s : Site) (r : Row) :
-    (ingestRow d s r).indexOn = s.indexOn ∧ (ingestRow d s r).declared = s.declared := by
-  unfold ingestRow
-  dsimp only
-  split
-  · exact writeUpdate_flags _ _ _ _ _
-  · exact writeInsert_flags _ _ _
-
-theorem foldl_ingest_flags (d : Defects) (l : List Row) : ∀ (s : Site),
-    (l.foldl (ingestRow d) s).indexOn = s.indexOn ∧ (l.foldl (ingestRow d) s).declared = s.declared := by
-  induction l with
-  | nil => intro s; exact ⟨rfl, rfl⟩
-  | cons r rest ih =>
-    intro s
-    simp only [List.foldl_cons]
-    exact ⟨(ih _).1.trans (ingestRow_flags d s r).1, (ih _).2.trans (ingestRow_flags d s r).2⟩
-
-theorem pullOp_flags (d : Defects) (src dst : Site) :
-    (pullOp d src dst).indexOn = dst.indexOn ∧ (pullOp d src dst).declared = dst.declared := by
-  unfold pullOp
-  have key : ∀ (l : List Ent) (acc : Site),
-      (l.foldl (fun acc e => pullRows d src e (pullTombs d src e acc)) acc).indexOn = acc.indexOn ∧
-      (l.foldl (fun acc e => pullRows d src e (pullTombs d src e acc)) acc).declared = acc.declared := by
-    intro l
-    induction l with
-    | nil => intro acc; exact ⟨rfl, rfl⟩
-    | cons e rest ih =>
-      intro acc
-      simp only [List.foldl_cons]
-      have h1 : (pullRows d src e (pullTombs d src e acc)).indexOn = acc.indexOn ∧
-          (pullRows d src e (pullTombs d src e acc)).declared = acc.declared := by
-        unfold pullRows
-        dsimp only
-        exact ⟨(foldl_ingest_flags d _ _).1, (foldl_ingest_flags d _ _).2⟩
-      exact ⟨(ih _).1.trans h1.1, (ih _).2.trans h1.2⟩
-  exact key _ dst
-
-/-- the flag follows the declaration of the model version in force -/
-def FlagOK (s : Site) : Prop := s.indexOn = declaredOn s.declared
-
-theorem step_flag (st : State) (hd : st.d.toggleIgnored = false) (h : ∀ s, s ∈ st.sites → FlagOK s) (op : Op) :
-    ∀ s, s ∈ (step st op).1.sites → FlagOK s := by
-  have hset : ∀ (i : Nat) (s1 : Site), FlagOK s1 → ∀ s, s ∈ st.sites.set i s1 → FlagOK s := by
-    intro i s1 h1 s hs
-    rcases List.mem_or_eq_of_mem_set hs with h' | h'
-    · exact h s h'
-    · subst h'; exact h1
-  cases op with
-  | q si e t => unfold step; simp only; split; exact h; split <;> exact h
-  | qall si => unfold step; simp only; split <;> exact h
-  | pull si ti =>
-    unfold step
-    simp only
-    split
-    · rename_i dst src hdst _
-      split
-      · exact h
-      · apply hset
-        unfold FlagOK
-        rw [(pullOp_flags st.d src dst).1, (pullOp_flags st.d src dst).2]
-        exact h dst (List.mem_of_getElem? hdst)
-    · exact h
-  | model si v =>
-    unfold step; simp only
-    split
-    · exact h
-    · rename_i s hs
-      split
-      · exact h
-      · rename_i s1 hl
-        simp only [localOp, hd] at hl
-        split at hl
-        · cases hl
-        · simp only [Bool.false_eq_true, ↓reduceIte, Option.some.injEq] at hl
-          subst hl
-          exact hset _ _ rfl
-  | new si n e text =>
-    unfold step; simp only
-    split
-    · exact h
-    · rename_i s hs
-      split
-      · exact h
-      · rename_i s1 hl
-        simp only [localOp] at hl
-        split at hl
-        · cases hl
-        · simp only [Option.some.injEq] at hl
-          subst hl
-          exact hset _ _ (h s (List.mem_of_getElem? hs))
-  | upd si n text =>
-    unfold step; simp only
-    split
-    · exact h
-    · rename_i s hs
-      split
-      · exact h
-      · rename_i s1 hl
-        simp only [localOp] at hl
-        split at hl
-        · cases hl
-        · simp only [Option.some.injEq] at hl
-          subst hl
-          exact hset _ _ (h s (List.mem_of_getElem? hs))
-  | clr si n =>
-    unfold step; simp only
-    split
-    · exact h
-    · rename_i s hs
-      split
-      · exact h
-      · rename_i s1 hl
-        simp only [localOp] at hl
-        split at hl
-        · cases hl
-        · simp only [Option.some.injEq] at hl
-          subst hl
-          exact hset _ _ (h s (List.mem_of_getElem? hs))
-  | del si n =>
-    unfold step; simp only
-    split
-    · exact h
-    · rename_i s hs
-      split
-      · exact h
-      · rename_i s1 hl
-        simp only [localOp] at hl
-        split at hl
-        · cases hl
-        · simp only [Option.some.injEq] at hl
-          subst hl
-          exact hset _ _ (h s (List.mem_of_getElem? hs))
-
 /-- **C17 (which entities): with `Defects.none`, "the engine indexes `e`" is "the model version in force
     declares an index for `e`"**, on every site after any history. -/
 theorem C17_flag_follows_model (n : Nat) (ops : List Op) :
